@@ -106,7 +106,31 @@ def build(payload):
             mb.max_packet_size = case["mps_cache"]
         return mb, stub, core
 
-    return mk, SPSDKError
+    def mk_sdp(case):
+        from spsdk.sdp.sdp import SDP
+        from spsdk.sdp.protocol.serial_protocol import SDPSerialProtocol
+        from spsdk.sdp.protocol.bulk_protocol import SDPBulkProtocol
+        core = ref.SdpCore(case["dev"]) if case["mode"] == "live" else None
+        if case["transport"] == "serial":
+            stub = SerialStub(ref.SdpSerialRef(core) if core else None, bytes.fromhex(case.get("stream", "")))
+            iface = SDPSerialProtocol(stub)
+        else:
+            stub = HidStub(ref.SdpHidRef(core, bool(case.get("pad"))) if core else None, [bytes.fromhex(r) for r in case.get("reports", [])])
+            iface = SDPBulkProtocol(stub)
+        if core is not None:
+            core.wi = 0
+        return SDP(iface, cmd_exception=bool(case["cmd_exception"])), stub, core
+
+    return mk, SPSDKError, mk_sdp
+
+
+def sdp_call(sdp, op, i, d):
+    i = list(i) + [0] * 4
+    T = {1: lambda: sdp.read(i[0], i[1], i[2] or 32), 2: lambda: sdp.write(i[0], i[1], i[2], i[3] or 32),
+         3: lambda: sdp.write_file(i[0], d), 4: lambda: sdp.write_dcd(i[0], d), 5: lambda: sdp.write_csf(i[0], d),
+         6: lambda: sdp.skip_dcd(), 7: lambda: sdp.jump_and_run(i[0]), 8: lambda: sdp.read_status(),
+         9: lambda: sdp.read_safe(i[0], i[1], i[2] or 32), 10: lambda: sdp.write_safe(i[0], i[1], i[2], i[3] or 32)}
+    return T[op]()
 
 
 def jres(x):
@@ -193,8 +217,29 @@ def units(us):
     return out
 
 
+def run_calls(obj, stub, case, caller, SPSDKError, status):
+    results = []
+    for c in case["calls"]:
+        signal.setitimer(signal.ITIMER_REAL, case.get("time_limit", 20))
+        nw = len(stub.rec.writes)
+        try:
+            v = caller(obj, c[0], c[1], bytes.fromhex(c[2]))
+            signal.setitimer(signal.ITIMER_REAL, 0)
+            r = ["ok", jres(v)]
+        except Hang:
+            results.append(["hang"] + status(obj) + [nw])
+            break
+        except BaseException as ex:  # noqa
+            signal.setitimer(signal.ITIMER_REAL, 0)
+            if isinstance(ex, (KeyboardInterrupt, SystemExit)):
+                raise
+            r = ["exc", type(ex).__name__, getattr(ex, "error_value", None), int(isinstance(ex, SPSDKError))]
+        results.append(r + status(obj) + [nw])
+    return results
+
+
 def handler(payload):
-    mk, SPSDKError = build(payload)
+    mk, SPSDKError, mk_sdp = build(payload)
     signal.signal(signal.SIGALRM, _alarm)
     out = []
     for case in payload.get("cases", []):
@@ -224,7 +269,17 @@ def handler(payload):
         if core is not None:
             o["dev"] = core.snapshot()
         out.append(o)
-    return {"cases": out, "units": units(payload.get("units", []))}
+    sout = []
+    for case in payload.get("sdp_cases", []):
+        sdp, stub, core = mk_sdp(case)
+        res = run_calls(sdp, stub, case, sdp_call, SPSDKError,
+                        lambda o: [[int(o.status_code.tag), int(o.hab_status), int(o.cmd_status)]])
+        o = {"results": res, "writes": [w.hex() for w in stub.rec.writes], "reads": [x.hex() for x in stub.rec.reads],
+             "left": (len(stub.buf) if case["transport"] == "serial" else len(stub.dev.queue if stub.dev else stub.q))}
+        if core is not None:
+            o["dev"] = core.snapshot()
+        sout.append(o)
+    return {"cases": out, "units": units(payload.get("units", [])), "sdp_cases": sout}
 
 
 if __name__ == "__main__":
